@@ -42,6 +42,8 @@ def sym(E, p, kf):
     b = E.choose("b", p["bs"])
     k = 64 // b
     ns = sorted(set(x for x in ([1, 2, 3, k - 1, k, k + 1, 2 * k - 1, 2 * k, 2 * k + 1] if p.get("nmode") != "all" else range(1, 2 * k + 3)) if 1 <= x <= p["nmax"]))
+    if p.get("zero"):
+        ns = [0] + ns[:2]          # the empty array packs, unpacks and is indexed by the empty position list
     n = E.choose("n", ns)
     dt = p["dtype"]
     w = {"uint8": 8, "uint16": 16, "int32": 32, "int64": 64, "uint64": 64}[dt]
@@ -56,7 +58,7 @@ def sym(E, p, kf):
     if op == "getint":
         c["i"] = E.int("i", 0, n - 1)
     elif op == "getlist":
-        m = E.concretize(E.int("m", 1, p["m"]))
+        m = E.concretize(E.int("m", 0 if p.get("zero") else 1, p["m"] if n else 0))
         c["idx"] = [E.int(f"i{j}", 0, n - 1) for j in range(m)]
     elif op == "window":
         ws = list(range(1, min(k, n) + 1))
@@ -131,6 +133,9 @@ def jobs(tier, seed):
     out.append(dict(bs=[8], nmax=10, op="window2", dtype="uint8", nmode="edges"))
     out.append(dict(bs=[16], nmax=6, op="after", dtype="uint64", nmode="all"))
     out.append(dict(bs=[1], nmax=66, op="window", dtype="uint64", nmode="edges", premask=True))
+    out.append(dict(bs=[4, 16], nmax=3, op="unpack", dtype="uint8", zero=True))
+    out.append(dict(bs=[8], nmax=3, op="getlist", dtype="uint64", m=2, zero=True))
+    out.append(dict(bs=[8], nmax=3, op="getlist", dtype="uint64", m=2, zero=True, aslist=True))
     out.append(dict(bs=[2, 8], nmax=33, op="unpack", dtype="uint8", nmode="edges", premask=True))
     if q:
         out.append(dict(bs=[2], nmax=33, op="window", dtype="uint64", nmode="edges"))
